@@ -82,7 +82,7 @@ def attribute(ev, cl, tags, trace):
     if op == "FillNumpy":
         if cl in ("frame", "noshare", "identity"):
             return {"C06"}
-        if kind == "shared":
+        if kind == "shared" and cl in ("outcome", "unchanged"):
             return {"C16"}
         return {"C03"} | lineage
     if op in ("Add", "Combine"):
